@@ -101,6 +101,7 @@ func (g *gen) bindAddrLocals(fr *frame, st *State, at *ssa.BasicBlock, out map[s
 		el := a.Type().Underlying().(*types.Pointer).Elem()
 		out[name] = binding{g.loadAt(st, ref.(string), el), xtOf(el)}
 	}
+	g.aliasRenamed(fr, out)
 }
 
 func localNames(fn *ssa.Function) map[string][]ssa.Value {
@@ -832,4 +833,123 @@ func (g *gen) checkLoopFrame(n *node, st, hst *State, excl map[string][]string, 
 func isIntType(t types.Type) bool {
 	b, ok := t.Underlying().(*types.Basic)
 	return ok && b.Info()&types.IsInteger != 0
+}
+
+// ---- tolerance against renamed locals ----
+// Contract clauses (loop invariants, ensures_local, precall) may name local variables. `pikevc pin`
+// records, for every local name of every function under contract, its type and how its values are
+// produced (result k of a call to f, phi, parameter, cell ...). When a recorded name no longer exists in
+// the function, and exactly one NEW name of the same type is produced in (at least) the same ways, the
+// old name is bound to it: a pure rename keeps the proof.
+
+type localSig struct {
+	Type string   `json:"type"`
+	Sig  []string `json:"sig"`
+}
+
+func localSigs(fn *ssa.Function) map[string]localSig {
+	out := map[string]localSig{}
+	describe := func(v ssa.Value) string {
+		switch x := v.(type) {
+		case *ssa.Extract:
+			if c, ok := x.Tuple.(*ssa.Call); ok {
+				if sc := c.Call.StaticCallee(); sc != nil {
+					return fmt.Sprintf("extract%d:%s", x.Index, funcKey(sc))
+				}
+				if c.Call.IsInvoke() {
+					return fmt.Sprintf("extract%d:%s", x.Index, c.Call.Method.Name())
+				}
+			}
+			return fmt.Sprintf("extract%d", x.Index)
+		case *ssa.Call:
+			if sc := x.Call.StaticCallee(); sc != nil {
+				return "call:" + funcKey(sc)
+			}
+			if x.Call.IsInvoke() {
+				return "call:" + x.Call.Method.Name()
+			}
+			if b, ok := x.Call.Value.(*ssa.Builtin); ok {
+				return "builtin:" + b.Name()
+			}
+			return "call"
+		case *ssa.Phi:
+			return "phi"
+		case *ssa.Parameter:
+			return "param"
+		case *ssa.Const:
+			return "const"
+		case *ssa.UnOp:
+			return "unop:" + x.Op.String()
+		case *ssa.BinOp:
+			return "binop:" + x.Op.String()
+		}
+		return fmt.Sprintf("%T", v)
+	}
+	for name, vals := range localNames(fn) {
+		ls := localSig{}
+		seen := map[string]bool{}
+		for _, v := range vals {
+			if ls.Type == "" {
+				ls.Type = types.TypeString(v.Type(), nil)
+			}
+			d := describe(v)
+			if !seen[d] {
+				seen[d] = true
+				ls.Sig = append(ls.Sig, d)
+			}
+		}
+		sort.Strings(ls.Sig)
+		out[name] = ls
+	}
+	for name, a := range addrLocals(fn) {
+		ls := out[name]
+		if ls.Type == "" {
+			ls.Type = types.TypeString(a.Type().Underlying().(*types.Pointer).Elem(), nil)
+		}
+		ls.Sig = append(ls.Sig, "cell")
+		sort.Strings(ls.Sig)
+		out[name] = ls
+	}
+	return out
+}
+
+func (g *gen) aliasRenamed(fr *frame, out map[string]binding) {
+	rec := g.P.localSigs[funcKey(fr.fn)]
+	if len(rec) == 0 {
+		return
+	}
+	cur := localSigs(fr.fn)
+	for old, osig := range rec {
+		if _, still := cur[old]; still {
+			continue
+		}
+		if _, bound := out[old]; bound {
+			continue
+		}
+		var cands []string
+		for name, csig := range cur {
+			if _, known := rec[name]; known || csig.Type != osig.Type {
+				continue
+			}
+			have := map[string]bool{}
+			for _, d := range csig.Sig {
+				have[d] = true
+			}
+			ok := true
+			for _, d := range osig.Sig {
+				if !have[d] && d != "const" {
+					ok = false
+				}
+			}
+			if ok {
+				cands = append(cands, name)
+			}
+		}
+		if len(cands) == 1 {
+			if b, ok := out[cands[0]]; ok {
+				out[old] = b
+				g.used[fmt.Sprintf("note:local %q of %s is now called %q (bound by type and provenance)", old, fr.fn.Name(), cands[0])] = true
+			}
+		}
+	}
 }
